@@ -353,6 +353,9 @@ func IsErrorType(t types.Type) bool { return isErrorType(t) }
 // one function: stores into a local Alloc and the loads back, and phis all of
 // whose other edges are the same value. It is used to follow `err` variables
 // that go/ssa spills to memory because a closure or defer captures them.
+// ValueAliases is valueAliases for the rules.
+func ValueAliases(v ssa.Value) map[ssa.Value]bool { return valueAliases(v) }
+
 func valueAliases(v ssa.Value) map[ssa.Value]bool {
 	out := map[ssa.Value]bool{v: true}
 	work := []ssa.Value{v}
